@@ -74,7 +74,8 @@ impl<'a> Read for FragReader<'a> {
         if let Fault::Err(kind) = self.fault {
             if self.pos >= self.fail_at && (!self.delivered_fault || kind != ErrorKind::Interrupted) {
                 self.delivered_fault = true;
-                return Err(io::Error::new(kind, "injected read fault"));
+                // both shapes of io::Error: with a payload and "simple" (kind only, no message, no OS code)
+                return Err(if self.calls % 2 == 0 { io::Error::new(kind, "injected read fault") } else { io::Error::from(kind) });
             }
         }
         let mut n = buf.len().min(self.data.len() - self.pos);
@@ -127,7 +128,7 @@ impl Write for FragWriter {
                 Fault::Err(kind) => {
                     if !self.delivered_fault || kind != ErrorKind::Interrupted {
                         self.delivered_fault = true;
-                        return Err(io::Error::new(kind, "injected write fault"));
+                        return Err(if self.calls % 2 == 0 { io::Error::new(kind, "injected write fault") } else { io::Error::from(kind) });
                     }
                 }
                 Fault::Zero => {
